@@ -77,13 +77,24 @@ class Ctx:
 
     # ---------------- traces from the implementation ----------------
     def validate(self, trace_module, trace_cfg, programs, runner, *, source, expect_clean=False,
-                 tamper=None, extra_doc=None, chunk=3000, env=None, min_events=2):
+                 tamper=None, extra_doc=None, chunk=3000, env=None, min_events=2, isolated=None):
         """Run each program on the real code (runner(program) -> events), have TLC judge the traces."""
         programs = list(programs)
         t0 = time.time()
-        traces = []
-        for p in programs:
-            traces.append(runner(p))
+        if isolated:
+            # programs that fork worker pools run in their own fresh interpreter under a timeout (see drivers/common.py)
+            from .drivers import common as _c
+            res = _c.run_isolated(isolated[0], isolated[1], programs, timeout=isolated[2] if len(isolated) > 2 else 90)
+            lost = [i for i, r in enumerate(res) if r is None]
+            self.extra["inconclusive_timeouts"] = self.extra.get("inconclusive_timeouts", 0) + len(lost)
+            if len(lost) > max(2, len(programs) // 10):
+                raise tlc.MachineryError(f"{len(lost)} of {len(programs)} isolated driver runs did not finish ({source})")
+            programs = [p for i, p in enumerate(programs) if res[i] is not None]
+            traces = [r for r in res if r is not None]
+        else:
+            traces = []
+            for p in programs:
+                traces.append(runner(p))
         t_run = time.time() - t0
         return self.validate_traces(trace_module, trace_cfg, traces, programs, source=source,
                                     expect_clean=expect_clean, tamper=tamper, extra_doc=extra_doc,
